@@ -1,6 +1,8 @@
 #!/usr/bin/env python3
 """bring evidence/selftest.json up to date without re-running everything:
-  tools/selftest_merge_stored.py [partial result files of tools/selftest.py ...] [--harmless-log FILE]
+  tools/selftest_merge_stored.py [partial result files of tools/selftest.py ...] [--harmless-log FILE] [--logs LOG ...]
+(4) --logs: progress logs of tools/selftest.py runs that were not allowed to finish (`<seed>  DETECTED by C..` / `<seed>  MISSED ..` / `harmless Hn  no alarm (C.. rc=n)` /
+    `harmless Hn  FALSE ALARM ..`): the stored entry is kept and marked with the outcome of the re-run (field `rerun`); a MISSED or FALSE ALARM line overrides it
 (1) entries of the partial files (re-runs against the current machinery) replace / extend the stored ones (source = 're-run');
 (2) every change under seeded/ that has no entry yet gets one from the verdicts recorded in its meta.json when it was stored by tools/store_seed.py (source = 'stored');
 (3) lines `Hnn (name) Cxx: <verdict line>` of a harmless log become harmless entries."""
@@ -10,6 +12,9 @@ path = os.path.join(V, 'evidence', 'selftest.json')
 res = json.load(open(path))
 args = sys.argv[1:]
 hlog = None
+logs = []
+if '--logs' in args:
+    k = args.index('--logs'); logs = args[k + 1:]; del args[k:]
 if '--harmless-log' in args:
     k = args.index('--harmless-log'); hlog = args[k + 1]; del args[k:k + 2]
 by_seed = {b['seed']: b for b in res['breaking']}
@@ -42,6 +47,29 @@ if hlog:
             line = mm.group(4)
             rc = 1 if line.startswith('VIOLATION') else 2 if line.startswith('UNDECIDED') else 0
             by_h[mm.group(1)] = dict(change=mm.group(1), results={mm.group(3): dict(rc=rc, line=line[:300])}, false_alarm=rc == 1)
+for lf in logs:
+    for l in open(lf):
+        l = l.rstrip()
+        mm = re.match(r'^(C\d\d_\S+)\s+DETECTED by (\S+)$', l)
+        if mm and mm.group(1) in by_seed:
+            by_seed[mm.group(1)]['rerun'] = 'detected by %s (re-run %s)' % (mm.group(2), time.strftime('%Y-%m-%d'))
+            by_seed[mm.group(1)]['detected'] = True
+            continue
+        mm = re.match(r'^(C\d\d_\S+)\s+MISSED', l)
+        if mm and mm.group(1) in by_seed:
+            by_seed[mm.group(1)]['rerun'] = 'MISSED (re-run %s)' % time.strftime('%Y-%m-%d'); by_seed[mm.group(1)]['detected'] = False
+            continue
+        mm = re.match(r'^harmless (H\d+)\s+no alarm \((C\d\d) rc=(\d)', l)
+        if mm:
+            h = by_h.setdefault(mm.group(1), dict(change=mm.group(1), results={}, false_alarm=False))
+            h['rerun'] = 'no alarm (%s rc=%s, re-run %s)' % (mm.group(2), mm.group(3), time.strftime('%Y-%m-%d'))
+            if not h['results']:
+                h['results'] = {mm.group(2): dict(rc=int(mm.group(3)), line='(re-run log)')}
+            continue
+        mm = re.match(r'^harmless (H\d+)\s+FALSE ALARM', l)
+        if mm:
+            h = by_h.setdefault(mm.group(1), dict(change=mm.group(1), results={}, false_alarm=True))
+            h['false_alarm'] = True; h['rerun'] = l[:300]
 res['breaking'] = [by_seed[k] for k in sorted(by_seed)]
 res['harmless'] = sorted(by_h.values(), key=lambda h: int(h['change'][1:]))
 res['at'] = time.strftime('%Y-%m-%d %H:%M:%S')
